@@ -23,3 +23,41 @@ pub fn array_layout<T>(n: usize) -> Layout { unimplemented!() }
 #[verifier::external_body]
 pub fn add_layout(a: Layout, b: Layout) -> Layout { unimplemented!() }
 }
+
+// ---- used by pow_word_base only ---------------------------------------------------------------------------------
+/// `is_power_of_two`: exactly one bit set  (core; same statement as lib/div_word_stubs.rs)
+pub assume_specification [@W@::is_power_of_two] (w: @W@) -> (r: bool)
+    ensures r <==> (w != 0 && (w & ((w - 1) as @W@)) == 0);
+/// `Word::pow` (core): the mathematical power when it fits; overflow panics (debug) / wraps (release): precondition
+pub assume_specification [@W@::pow] (b: @W@, e: u32) -> (r: @W@)
+    requires ipow(b as int, e as int) <= @W@::MAX as int,
+    ensures r as int == ipow(b as int, e as int);
+
+/// dashu_base::DivRem (trait mirrored), instantiated at usize (base/src/math/div.rs macro impl): Euclidean division of
+/// machine integers; a zero divisor panics.  TRUSTED.
+pub trait DivRem<Rhs = Self> {
+    type OutputDiv;
+    type OutputRem;
+    spec fn div_rem_req(self, rhs: Rhs) -> bool;
+    spec fn div_rem_post(self, rhs: Rhs, q: Self::OutputDiv, r: Self::OutputRem) -> bool;
+    fn div_rem(self, rhs: Rhs) -> (qr: (Self::OutputDiv, Self::OutputRem))
+        requires self.div_rem_req(rhs) ensures self.div_rem_post(rhs, qr.0, qr.1);
+}
+impl DivRem<usize> for usize {
+    type OutputDiv = usize;
+    type OutputRem = usize;
+    open spec fn div_rem_req(self, rhs: usize) -> bool { rhs != 0 }
+    open spec fn div_rem_post(self, rhs: usize, q: usize, r: usize) -> bool { q * rhs + r == self && r < rhs }
+    #[verifier::external_body]
+    fn div_rem(self, rhs: usize) -> (qr: (usize, usize)) { unimplemented!() }
+}
+
+/// integer/src/bits.rs:428 `TypedRepr::set_bit(self, n)`: only the instance used by pow.rs (setting bit n of ZERO gives
+/// 2^n).  The result has n / WORD_BITS + 1 words (resource precondition).  TRUSTED.
+impl TypedRepr {
+    #[verifier::external_body]
+    pub fn set_bit(self, n: usize) -> (r: Repr)
+        requires self.wf(), (n as int) / @BITS@ < max_capacity(),
+        ensures self.v() == 0 ==> r.v() == pow2(n as int),
+    { unimplemented!() }
+}
